@@ -107,6 +107,15 @@ def main():
         try: os.remove(os.path.join(ROOT, ".scratch", os.path.basename(alt) + ".lock"))
         except OSError: pass
     res["caught_by"] = sorted(p for p, r in res["checks"].items() if r["rc"] != 0)
+    if not validate:
+        # keep the validation record of an earlier --validate run
+        try:
+            old = json.load(open(os.path.join(sd, "result.json")))
+            for k in ("demo_without_patch_rc", "builds", "baseline_passes", "baseline_out", "demo_with_patch_rc", "demo_with_patch_out"):
+                if k in old and k not in res:
+                    res[k] = old[k]
+        except (OSError, ValueError):
+            pass
     json.dump(res, open(os.path.join(sd, "result.json"), "w"), indent=1)
     print("caught by:", res["caught_by"])
     return res
